@@ -14,7 +14,7 @@ import sys
 from concurrent.futures import ThreadPoolExecutor
 
 V = os.path.dirname(os.path.dirname(os.path.abspath(__file__)))
-SUFFIX = ["", "b", "c", "d", "e", "f", "g", "h", "i", "j", "k", "l", "m", "n"]
+SUFFIX = ["", "b", "c", "d", "e", "f", "g", "h", "i", "j", "k", "l", "m", "n", "o"]
 
 
 def sh(cmd, timeout=None):
